@@ -667,7 +667,9 @@ impl<'a> ByteReader for SliceReader<'a> {
     }
 
     fn check_eor(&self, num_bytes: usize) -> Result<(), DeserializationError> {
-        if self.pos + num_bytes > self.source.len() {
+        // num_bytes may come straight from untrusted input: compare against the bytes that are
+        // left instead of computing `pos + num_bytes`, which can overflow
+        if num_bytes > self.source.len() - self.pos {
             return Err(DeserializationError::UnexpectedEOF);
         }
         Ok(())
